@@ -29,7 +29,7 @@ import (
 func realWalletCfg(before, after []planOut, nIn int) *WorldCfg {
 	c := defaultCfg()
 	c.RealWallets = true
-	c.FundPlan = fundPlan{nIn: nIn, before: before, after: after}
+	c.FundPlan = fundPlan{nIn: nIn, before: before, after: after, nested: nIn == 2}
 	var plan []lqOutSpec
 	for i, o := range before {
 		s := lqOutSpec{script: 1 + i%3, kind: "C", policy: true, value: uint64(o.value)}
